@@ -188,6 +188,8 @@ def _tables():
         Resource("f", 0, Pins("7", dir="o")),                        # shares 7 with e.p
         Resource("g", 0, Pins("9", dir="o")),                        # shares 9 with the NEGATIVE leg of e
         Resource("h", 0, DiffPairs("10", "8", dir="o")),             # negative leg shares 8 with the negative leg of e
+        Resource("k", 0, Pins("11 4", dir="oe")),                    # output with enable: an Output port; shares 4 with d.x
+        Resource("l", 0, Subsignal("t", DiffPairs("12", "13", dir="oe")), Subsignal("u", PinsN("14", dir="oe"))),
     ], [])
     t1 = ([
         Resource("led", 0, Pins("1 2", dir="o", conn=("pmod", 0))),
